@@ -116,6 +116,7 @@ func opStep(r *core.RNG, pool *Pool, s *Swarm, d *genDID, kind ref.OpKind, fault
 		st.SignedExtra = genSignedExtra(rx, kind)
 	}
 	st.Respace = r.Stream("respace").Chance(1, 5)
+	st.KeyExtras = kind != ref.Create && r.Stream("key-extras").Chance(1, 6)
 	st.NextUpdIsRevealed = kind == ref.Recover && r.Stream("cross-chain-key").Chance(1, 6)
 	st.Builder = "raw"
 	st.Via = "direct"
